@@ -472,6 +472,10 @@ spif_dlinked_list_dup(spif_dlinked_list_t self)
     ASSERT_RVAL(!SPIF_LIST_ISNULL(self), (spif_dlinked_list_t) NULL);
     tmp = spif_dlinked_list_new();
     memcpy(tmp, self, SPIF_SIZEOF_TYPE(dlinked_list));
+    if (SPIF_DLINKED_LIST_ITEM_ISNULL(self->head)) {
+        /* Empty list:  nothing to copy. */
+        return tmp;
+    }
     tmp->head = spif_dlinked_list_item_dup(self->head);
     for (src = self->head, dest = tmp->head, prev = (spif_dlinked_list_item_t) NULL;
          src->next;
@@ -479,8 +483,9 @@ spif_dlinked_list_dup(spif_dlinked_list_t self)
         dest->next = spif_dlinked_list_item_dup(src->next);
         dest->prev = prev;
     }
+    dest->prev = prev;
     dest->next = (spif_dlinked_list_item_t) NULL;
-    tmp->tail = prev;
+    tmp->tail = dest;
     return tmp;
 }
 
